@@ -62,6 +62,7 @@ class SingleMarker(BaseMarker):
         "python_version",
         "python_full_version",
         "platform_release",
+        "implementation_version",
     }
 
     def without_extras(self) -> BaseMarker:
